@@ -13,7 +13,7 @@ from harness.core import cbool, clist, copt, cz, czlist
 
 ID = "C19"
 MODEL_TARGETS = ["C19/Cases.vo"]
-PROOF_TARGETS = ["C19/Store.vo", "C19/Proofs.vo"]
+PROOF_TARGETS = ["C19/Store.vo", "C19/Proofs.vo", "C19/Grid.vo"]
 OBLIGATION_FILES = []
 PROPS_FILE = "C19/Props.v"
 SHARD = 70
